@@ -89,7 +89,45 @@ def encOp (mode : String) (rest : List String) : String :=
       | .badPlan => "bad-plan"
       | .fuel => "model-fuel"
 
+/-- commitment-time identity roots of every reachable node of a plan (`-` where the code has none:
+witness / disconnect-containing sub-expressions) -/
+def cihrOp (rest : List String) : String :=
+  match parsePlan rest with
+  | none => "bad-op"
+  | some (p, tail) =>
+    match parseExtras tail {} with
+    | none => "bad-op"
+    | some _ =>
+      match infer tables.jetTy p true with
+      | .ok arrows =>
+        match annots tables.jetCmr tables.jetCost p arrows (fun _ => none) with
+        | none => "model-annot-failed"
+        | some an =>
+          let reach := Id.run do
+            let mut seen : Array Bool := Array.replicate p.size false
+            let mut stack : List Nat := [p.size - 1]
+            let mut fuel := 4 * p.size + 4
+            while fuel > 0 && !stack.isEmpty do
+              fuel := fuel - 1
+              match stack with
+              | [] => pure ()
+              | i :: st =>
+                stack := st
+                if !(seen.getD i true) then
+                  seen := seen.set! i true
+                  stack := (commitChildren p i) ++ stack
+            pure seen
+          let items := (List.range p.size).map fun i =>
+            if reach.getD i false then
+              match an[i]? with
+              | some a => if a.unique then "-" else hex32 a.ihr
+              | none => "?"
+            else "."
+          "ihrs " ++ " ".intercalate items
+      | _ => "ill-typed"
+
 def handle : List String → String
+  | "cihr" :: rest => cihrOp rest
   | "enc" :: mode :: rest => encOp mode rest
   | "dec" :: p :: w :: _ => decOp p w
   | ["cdec", p] => cdecOp p
